@@ -26,6 +26,25 @@ def farkas_hint(Ap, bp, b, t, lb, ub):
     if res.status != 0 or res.x[-1] <= 0:
         return None
     lam = np.maximum(-np.asarray(res.ineqlin.marginals), 0.0)
+    if not np.all(np.isfinite(ub)):
+        # sources without upper bound: the combined row lam.G must be >= 0 there EXACTLY or the certified bound is -infinity.
+        # Repair the (untrusted) float multipliers in exact arithmetic by raising the multiplier of one row with a positive entry.
+        tq = F(float(t))
+        Gq = []
+        for r, bc in zip(Ap, b):
+            kq = tq * (1 + F(float(bc)))
+            Gq.append([-(1 + kq) * F(float(v)) for v in r]); Gq.append([(1 - kq) * F(float(v)) for v in r])
+        lq = [F(float(v)) for v in lam]
+        for j in range(n):
+            if np.isfinite(ub[j]):
+                continue
+            cj = sum(l * g[j] for l, g in zip(lq, Gq))
+            if cj < 0:
+                i_best = max(range(m), key=lambda i: Gq[i][j])
+                if Gq[i_best][j] <= 0:
+                    return lam
+                lq[i_best] += -cj / Gq[i_best][j]
+        return [v for v in lq]
     return lam
 
 
@@ -128,6 +147,21 @@ def run(R):
                 ok = inb and minp > 0 and gap != "none"
                 gv = float(parse_rat(gap)) if gap != "none" else float("inf")
                 scale = float(np.sum(wv * (B[i] + 1)))
+                if not ok and inb and minp > 0 and not np.all(np.isfinite(S["ub"])):
+                    # a source without upper bound whose gradient entry is slightly negative: infinite gap at the answer.
+                    # Evaluate the gap at a slightly larger in-bound point x' and carry it back (theorem poisson_shifted_gap_bound)
+                    xh = np.clip(op_[0][i], S["lb"], S["ub"])
+                    for dl in (1e-6, 1e-4, 1e-2):
+                        x2 = np.where(np.isfinite(S["ub"]), xh, xh + dl * (1.0 + np.abs(xh)))
+                        R.driver.ask("q1", "poisgap", ns, ms(Ap), vs(bp), vs(wv), vs(B[i]), vs(S["lb"]), ub_text(S["ub"]), vs(x2))
+                        R.driver.ask("q2", "poistan", ns, ms(Ap), vs(bp), vs(wv), vs(B[i]), vs(xh), vs(x2))
+                        R.driver.run()
+                        t1 = R.driver.get("q1"); inb2 = t1.bool(); minp2 = t1.rat(); gap2 = t1.tok()
+                        t2 = R.driver.get("q2"); t2.rat(); tan = t2.rat()
+                        if inb2 and minp2 > 0 and gap2 != "none":
+                            gv = float(parse_rat(gap2) + tan); ok = True
+                            R.count("poisson-gap:shifted-certificate")
+                            break
                 R.cert(ok and gv <= 1e-3 * scale)
                 R.count("poisson-gap<=1e-3:%s" % (gv <= 1e-3 * scale))
                 if not (ok and gv <= 2e-2 * scale):
